@@ -120,11 +120,18 @@ def run(prop, muts, verbose=False):
     files = sorted(f for f in os.listdir(d) if f.endswith(".patch"))
     if muts:
         files = [f for f in files if f.replace(".patch", "") in muts]
-    out = []
-    for f in files:
-        r = run_patch(prop, os.path.join(d, f), verbose)
-        out.append(r)
-    return out
+    return _pmap(lambda f: run_patch(prop, os.path.join(d, f), verbose), files)
+
+
+def _pmap(fn, items):
+    """run the per-patch checks of a self-test side by side (each works on its own scratch copy)"""
+    items = list(items)
+    jobs = int(os.environ.get("VERIF_JOBS", "6"))
+    if jobs <= 1 or len(items) <= 1:
+        return [fn(x) for x in items]
+    from concurrent.futures import ThreadPoolExecutor
+    with ThreadPoolExecutor(max_workers=jobs) as ex:
+        return list(ex.map(fn, items))
 
 
 def parse_header(path, key):
@@ -142,6 +149,7 @@ def run_benign(prop, verbose=False):
     out = []
     if not os.path.isdir(d):
         return out
+    work = []
     for f in sorted(os.listdir(d)):
         if not f.endswith(".patch"):
             continue
@@ -153,6 +161,10 @@ def run_benign(prop, verbose=False):
             only[k.strip()] = v.strip()
         if prop not in parse_header(path, "silent") and prop not in only:
             continue
+        work.append((f, path, only))
+
+    def one(w):
+        f, path, only = w
         r = run_patch(prop, path, verbose, expect=["\0never"], label="benign/" + f)
         r["kind"] = "benign"
         if r["status"] == "MISSED":
@@ -163,8 +175,8 @@ def run_benign(prop, verbose=False):
                 r["note"] = "reports only %s (a recorded finding that this edit moves to another function)" % only[prop]
             else:
                 r["status"] = "FALSE-ALARM"
-        out.append(r)
-    return out
+        return r
+    return _pmap(one, work)
 
 
 def seeded_for(prop):
